@@ -11,7 +11,9 @@ import xml.etree.ElementTree as ET
 
 pid, k = sys.argv[1], sys.argv[2]
 checks = sys.argv[3:] or [pid]
-wt, out = f"/tmp/seed/{pid}", f"/tmp/seed/{pid}.out"
+root = os.environ.get("SEED_ROOT", "/tmp/seed")
+off = int(os.environ.get("SEED_OFFSET", "0"))   # wave 2: SEED_ROOT=/tmp/seed2 SEED_OFFSET=2 -> seeded/<ID>-3, -4
+wt, out = f"{root}/{pid}", f"{root}/{pid}.out"
 patch, demo = f"{out}/patch{k}.diff", f"{out}/demo{k}.py"
 env = dict(os.environ, PYTHONPATH=f"{wt}/src", PYTHONHASHSEED="0")
 env.pop("GRIFFE_VERIF", None)
@@ -20,7 +22,7 @@ def sh(cmd, **kw):
     return subprocess.run(cmd, shell=True, capture_output=True, text=True, **kw)
 
 def suite(tag):
-    xml = f"/tmp/seed/{pid}.{tag}.xml"
+    xml = f"{root}/{pid}.{tag}.xml"
     sh(f"cd {wt} && /venv/bin/python -m pytest -q -p no:cacheprovider --timeout=900 --continue-on-collection-errors -q --junitxml={xml}", env=env)
     ok = set()
     for tc in ET.parse(xml).getroot().iter("testcase"):
@@ -31,7 +33,7 @@ def suite(tag):
 
 assert sh(f"git -C {wt} status --short").stdout.strip() == "", "worktree not clean"
 r0 = sh(f"/venv/bin/python {demo}", env=env, cwd=out)
-base_cache = "/tmp/seed/base_pass.json"
+base_cache = f"{root}/base_pass.json"
 if os.path.exists(base_cache):
     base = set(json.load(open(base_cache)))
 else:
@@ -55,7 +57,7 @@ for c in checks:
     print(f"check {c}: rc={rc}")
 if not verdict:
     print("NOT CONFIRMED: seed rejected"); print(r0.stdout[-500:], r1.stdout[-500:]); sys.exit(1)
-dst = f"/verif/seeded/{pid}-{k}"
+dst = f"/verif/seeded/{pid}-{int(k) + off}"
 os.makedirs(dst, exist_ok=True)
 shutil.copy(patch, f"{dst}/patch.diff"); shutil.copy(demo, f"{dst}/demo.py")
 meta = json.load(open(f"{out}/meta{k}.json")) if os.path.exists(f"{out}/meta{k}.json") else {}
